@@ -11,5 +11,7 @@ pub mod expand;
 mod kw;
 #[cfg(not(all(feature = "syn", feature = "syn2")))]
 mod validate;
+#[cfg(all(o2o_verif, not(all(feature = "syn", feature = "syn2"))))]
+pub mod verif_seam;
 
 mod tests;
